@@ -230,8 +230,13 @@ impl FileHasher<'_> {
         transform: Option<Transform>,
         log: &dyn Log,
     ) -> Result<FileHasher<'_>, Error> {
-        let transform_command_str = transform.as_ref().map(|t| t.command_str.as_str());
-        let cache = HashCache::open_default(transform_command_str, algorithm)?;
+        // the same command gives different data when its result is read from the file (--in-place)
+        // instead of its standard output, so hashes obtained in the two ways are cached apart
+        let transform_command_str = transform.as_ref().map(|t| match t.in_place {
+            true => format!("in-place:{}", t.command_str),
+            false => t.command_str.clone(),
+        });
+        let cache = HashCache::open_default(transform_command_str.as_deref(), algorithm)?;
         Ok(FileHasher {
             algorithm,
             buf_len: 65536,
